@@ -4,7 +4,7 @@ import re
 from tools.vlib import *
 
 PID = "C39"
-READY = False
+READY = True
 MANIFEST = {
     "level_text": "KNOWN FINDING C39-1: the property does not hold for the code as it is; the check confirms it on every run and exits 0 "
                   "while reporting any other way the property could be broken. Proved in Lean 4 about a model of KeyManager "
@@ -27,7 +27,7 @@ MANIFEST = {
                   "needs a rekey exchange or an agreed derivation plus a changeover rule (see notes/C39.md): not small, so nothing is "
                   "patched and the model follows the code as it is. Trusted: Lean kernel; the transcription of the anchored functions "
                   "(checked by the differential run: keys, counters, last-rotation instants and session keys of both real nodes agree with "
-                  "the model on every op; 5 hand-made mutants caught); HMAC-SHA256 taken at its specification (C08); the virtual clock "
+                  "the model on every op; 6 hand-made mutants noticed, 4 of them with a concrete replay); HMAC-SHA256 taken at its specification (C08); the virtual clock "
                   "(link-time interposition; both nodes read one counter, a clock offset between machines is an `adv` between their "
                   "ticks); sessions are socketpair ends planted as SessionManager::Session objects without reader threads, the "
                   "receiving side of a message (transport decrypt, decode_signed) is replayed by the harness with the receiver's keys.",
